@@ -132,22 +132,83 @@ class Something:
 ''',
         "probes": [("Something", "x", [0, 1, 2]), ("Something", "y", [0])],
     },
+    # invariants in UNRECOGNISED form which contain a length comparison: nothing may be inferred from them, whatever
+    # the comparator and the constant are
+    "unrecognised_a": {
+        "text": '''
+@invariant(lambda self: len(self.x) > 1 or self.flag, "slot0")
+@invariant(lambda self: not (len(self.x) > 1), "slot1")
+@invariant(lambda self: self.y is None or len(self.y) > 1 or self.flag, "slot2")
+class Something:
+    x: str
+    y: Optional[str]
+    flag: bool
+
+    def __init__(self, x: str, flag: bool, y: Optional[str] = None) -> None:
+        self.x = x
+        self.flag = flag
+        self.y = y
+''',
+        "probes": [("Something", "x", []), ("Something", "y", [])],
+    },
+    "unrecognised_b": {
+        "text": '''
+@invariant(lambda self: not (self.y is not None) or (len(self.y) > 1 or self.flag), "slot0")
+@invariant(lambda self: not self.flag or len(self.x) > 1, "slot1")
+@invariant(lambda self: not (self.y is not None and self.flag) or len(self.y) > 1, "slot2")
+class Something:
+    x: str
+    y: Optional[str]
+    flag: bool
+
+    def __init__(self, x: str, flag: bool, y: Optional[str] = None) -> None:
+        self.x = x
+        self.flag = flag
+        self.y = y
+''',
+        "probes": [("Something", "x", []), ("Something", "y", [])],
+    },
+    "unrecognised_c": {
+        "text": '''
+@invariant(lambda self: self.y is None or self.flag or len(self.y) > 1, "slot0")
+@invariant(lambda self: not (self.z is not None) or len(self.x) > 1, "slot1")
+@invariant(lambda self: self.z is None or (self.y is None or len(self.y) > 1), "slot2")
+class Something:
+    x: str
+    y: Optional[str]
+    z: Optional[str]
+    flag: bool
+
+    def __init__(self, x: str, flag: bool, y: Optional[str] = None, z: Optional[str] = None) -> None:
+        self.x = x
+        self.flag = flag
+        self.y = y
+        self.z = z
+''',
+        "probes": [("Something", "x", []), ("Something", "y", []), ("Something", "z", [])],
+    },
 }
 
 _LOADED: Dict[str, Any] = {}
 
 
 def _find_comparison(node: Any) -> Optional[parse_tree.Comparison]:
-    """The first ``len(..) op const`` comparison inside ``node`` (depth first)."""
-    if isinstance(node, parse_tree.Comparison):
+    """The first ``len(..) op const`` comparison inside ``node`` (depth first, any node kind)."""
+    if isinstance(node, parse_tree.Comparison) and isinstance(node.left, parse_tree.FunctionCall):
         return node
-    if isinstance(node, parse_tree.Or):
-        for v in node.values:
-            r = _find_comparison(v)
-            if r is not None:
-                return r
-    if isinstance(node, parse_tree.Implication):
-        return _find_comparison(node.consequent)
+    if isinstance(node, parse_tree.Node):
+        for key, value in vars(node).items():
+            if key in ("original_node",):
+                continue
+            if isinstance(value, parse_tree.Node):
+                r = _find_comparison(value)
+                if r is not None:
+                    return r
+            elif isinstance(value, (list, tuple)):
+                for item in value:
+                    r = _find_comparison(item)
+                    if r is not None:
+                        return r
     return None
 
 
@@ -302,7 +363,7 @@ def make_harness(params: Dict[str, Any]):
     return harness
 
 
-SLOTS = {"own2": 2, "own3": 3, "optional": 2, "list": 2, "chain": 3, "constrained_primitive": 3}
+SLOTS = {"unrecognised_a": 3, "unrecognised_b": 3, "unrecognised_c": 3, "own2": 2, "own3": 3, "optional": 2, "list": 2, "chain": 3, "constrained_primitive": 3}
 
 
 def shards(tier: str) -> List[Dict[str, Any]]:
